@@ -2,6 +2,7 @@
 //!       [--part FILE] [--replay-dir DIR] [--known FILE] [--label L]
 //! rvmon <property> --replay FILE
 //! rvmon <property> --case-seed N [--index I]
+//! rvmon <property> --tape-dir DIR [--shard i/n] [--part FILE]   (all inputs of a corpus directory)
 //! rvmon <property> --tape FILE          (a libFuzzer input: choice tape of the property's generator)
 use std::{collections::BTreeMap, path::PathBuf};
 
@@ -24,6 +25,7 @@ struct Args {
     replay: Option<PathBuf>,
     case_seed: Option<u64>,
     tape: Option<PathBuf>,
+    tape_dir: Option<PathBuf>,
     index: u64,
     label: String,
     watchdog: u64,
@@ -44,6 +46,7 @@ fn parse() -> Args {
         replay: None,
         case_seed: None,
         tape: None,
+        tape_dir: None,
         index: 0,
         label: "native".into(),
         watchdog: 300,
@@ -68,6 +71,7 @@ fn parse() -> Args {
             "--replay" => a.replay = Some(val().into()),
             "--case-seed" => a.case_seed = Some(val().parse().expect("case seed")),
             "--tape" => a.tape = Some(val().into()),
+            "--tape-dir" => a.tape_dir = Some(val().into()),
             "--index" => a.index = val().parse().expect("index"),
             "--label" => a.label = val(),
             "--watchdog" => a.watchdog = val().parse().expect("watchdog"),
@@ -170,6 +174,29 @@ fn drive<M: Monitor>(m: &M, a: &Args) -> i32 {
                 2
             }
         };
+    }
+    if let Some(dir) = &a.tape_dir {
+        // every fuzzer input of a directory (this shard's share), judged like campaign cases
+        let mut files: Vec<PathBuf> = std::fs::read_dir(dir).expect("tape dir").filter_map(|e| e.ok().map(|e| e.path())).filter(|p| p.is_file()).collect();
+        files.sort();
+        let t0 = std::time::Instant::now();
+        let mut rep = Report::default();
+        for (i, f) in files.iter().enumerate() {
+            if i as u64 % a.shard.1 != a.shard.0 {
+                continue;
+            }
+            let data = std::fs::read(f).unwrap_or_default();
+            let mut rng = rvmon::gener::Rng::from_tape(&data);
+            let index = rng.below(65536);
+            let case = m.generate(&mut rng, a.tier, index);
+            match campaign::replay(m, a.tier, serde_json::to_value(&case).unwrap_or(Value::Null)) {
+                Ok(r) => rep.merge(r),
+                Err(e) => rep.inconclusive(&format!("harness panic: tape case could not be rebuilt: {e}")),
+            }
+            rep.cases += 1;
+            rep.count("corpus-inputs-replayed");
+        }
+        return finish(m, a, rep, t0.elapsed().as_secs_f64(), false);
     }
     if let Some(path) = &a.tape {
         // a fuzzer input: the choice tape of this property's generator
